@@ -76,8 +76,8 @@ Record ostep := mkO {
   o_decC : list (option (list field));     (* header blocks completed in o_toC, as decoded by the client's own HPACK decoder *)
   o_decS : list (option (list field));
   o_status : status;
-  o_snapC : snap;                          (* state of the relay sending towards the client, after the event *)
-  o_snapS : snap
+  o_snapC : option snap;                   (* state of the relay sending towards the client after the event; None: as after the previous step *)
+  o_snapS : option snap
 }.
 
 Record hcase := mkH {
@@ -92,23 +92,27 @@ Record hcase := mkH {
 Definition pair0 (c : hcase) : opair :=
   mkPair (relay0 (h_decC c) (h_encC c)) (relay0 (h_decS c) (h_encS c)).
 
-Definition step_model_ok (p : opair) (o : ostep) : bool * opair :=
+Definition eff (prev : snap) (o : option snap) : snap := match o with Some s => s | None => prev end.
+
+Definition step_model_ok (p : opair) (prev : snap * snap) (o : ostep) : bool * opair :=
   let s := ostep_model p (o_ev o) in
   let live := match o_status o with Diverge => false | Panic => false | _ => true end in
   (status_eqb (s_status s) (o_status o) &&
    (negb live ||
     (list_eqb wframe_eqb (wire (s_toC s)) (o_toC o) && list_eqb wframe_eqb (wire (s_toS s)) (o_toS o) &&
-     snap_eqb (snap_of (r_flow (toC (s_pair s)))) (o_snapC o) &&
-     snap_eqb (snap_of (r_flow (toS (s_pair s)))) (o_snapS o))),
+     snap_eqb (snap_of (r_flow (toC (s_pair s)))) (eff (fst prev) (o_snapC o)) &&
+     snap_eqb (snap_of (r_flow (toS (s_pair s)))) (eff (snd prev) (o_snapS o)))),
    s_pair s).
 
-Fixpoint steps_model_ok (p : opair) (l : list ostep) : bool :=
+Fixpoint steps_model_ok (p : opair) (prev : snap * snap) (l : list ostep) : bool :=
   match l with
   | [] => true
-  | o :: r => let '(ok, p') := step_model_ok p o in ok && steps_model_ok p' r
+  | o :: r =>
+      let '(ok, p') := step_model_ok p prev o in
+      ok && steps_model_ok p' (eff (fst prev) (o_snapC o), eff (snd prev) (o_snapS o)) r
   end.
 
-Definition case_model_ok (c : hcase) : bool := steps_model_ok (pair0 c) (h_steps c).
+Definition case_model_ok (c : hcase) : bool := steps_model_ok (pair0 c) (snap_of flow0, snap_of flow0) (h_steps c).
 
 (* ---- the implementation's own trace *)
 Definition trace_of (c : hcase) : list tstep :=
@@ -173,15 +177,18 @@ Definition head_blocked (conn : Z) (s : ssnap) : bool :=
 Definition snap_no_strand (s : snap) : bool := forallb (head_blocked (sn_conn s)) (sn_streams s).
 Definition snap_empty (s : snap) : bool :=
   forallb (fun x => match snd x with [] => true | _ => false end) (sn_streams s).
+Definition osnap_ok (o : option snap) : bool := match o with Some s => snap_no_strand s | None => true end.
+Fixpoint last_snaps (prev : snap * snap) (l : list ostep) : snap * snap :=
+  match l with
+  | [] => prev
+  | o :: r => last_snaps (eff (fst prev) (o_snapC o), eff (snd prev) (o_snapS o)) r
+  end.
 Definition c10_no_strand (c : hcase) : bool :=
   forallb (fun o => match o_status o with
-                    | Ok => snap_no_strand (o_snapC o) && snap_no_strand (o_snapS o)
+                    | Ok => osnap_ok (o_snapC o) && osnap_ok (o_snapS o)
                     | _ => true end) (h_steps c) &&
   (negb (h_flushed c) ||
-   match rev (h_steps c) with
-   | [] => true
-   | o :: _ => snap_empty (o_snapC o) && snap_empty (o_snapS o)
-   end).
+   let '(sc, ss) := last_snaps (snap_of flow0, snap_of flow0) (h_steps c) in snap_empty sc && snap_empty ss).
 
 (* 1 fidelity, 2 connection frames, 3 a conforming frame was refused, 4 stranding *)
 Definition c10_failures (c : hcase) : list N :=
